@@ -588,7 +588,7 @@ def run(prog, rep):
     check_detect(rep, det, 'empty input', 'Utf8', 0, res, 'empty input', enum)
 
     # ---------------------------------------------------------------- R13.6 .. R13.8
-    encoded_reader.check(prog, rep)
+    encoded_reader.check(prog, rep, ids={'R13.6': 'R13.6', 'R13.7': 'R13.7', 'R13.8': 'R13.8', 'R13.12': 'R13.12'})
 
     # ---------------------------------------------------------------- R13.9
     check_stream_reposition(prog, rep)
@@ -596,6 +596,7 @@ def run(prog, rep):
     # ---------------------------------------------------------------- R13.10 (CSV stream entry point: chunked text, no look-ahead past it)
     from rules import c09
     c09.check_scanner_reads(prog, rep, 'R13.10')
+    c09.check_lookahead_fresh(prog, rep, 'R13.11')      # a stream that ends exactly at a chunk boundary is still recognised as ended
 
 
 def check_detect(rep, det, site, enc, offset, res, what, enum):
